@@ -387,6 +387,12 @@ Mutants ==
 \* mutual struct recursion needs two changes of the base, it is one broken rule at two sites
 MutualCycle == M("struct_cycle", "P", WithDefs([BaseDefs EXCEPT ![IP] = [BaseDefs[IP] EXCEPT !.sfields[1].type = Ref("Q")]]))
 
+\* cycles that are reached only through the second struct-typed field of a struct (the first one leads elsewhere)
+ChainCycles == {
+    M("struct_cycle", "P", WithDefs([BaseDefs EXCEPT ![IP] = [BaseDefs[IP] EXCEPT !.sfields[1].type = Imp("pkgb", "Pt"), !.sfields[6].type = Ref("Q")]])),
+    M("struct_cycle", "P", WithDefs([BaseDefs EXCEPT ![IP] = [BaseDefs[IP] EXCEPT !.sfields[6].type = Ref("Q")],
+                                                     ![IQ] = [BaseDefs[IQ] EXCEPT !.sfields[1].type = Imp("pkgb", "Pt"), !.sfields[2].type = Ref("P")]])) }
+
 \* text that the lexer must refuse (C14: the compiler never exits successfully after a lexical error)
 BadTexts == <<
     [name |-> "open-comment", raw |-> "/* never closed"],
@@ -439,7 +445,7 @@ SInit ==
                  case = [verdict |-> "reject", shape |-> "plain", nfiles |-> 1, svc |-> TRUE, world |-> BaseWorld, rule |-> "lexical",
                          name |-> BadTexts[b].name, lex |-> [pos |-> pos, raw |-> BadTexts[b].raw]]
          [] Family = "mutant" ->
-              \E m \in Mutants \cup {MutualCycle} :
+              \E m \in Mutants \cup {MutualCycle} \cup ChainCycles :
                  case = [verdict |-> "reject", shape |-> "plain", nfiles |-> 1, svc |-> TRUE, world |-> m.world, rule |-> m.rule, name |-> m.name]
 
 SwapAt(fs, i, j) == [fs EXCEPT ![i] = fs[j], ![j] = fs[i]]
